@@ -1,0 +1,11 @@
+//go:build verif
+
+package verifapi
+
+import "github.com/deepteams/webp/internal/lossy"
+
+// FastRun is lossy.VerifFastRun: fastBit / fastSigned under the brLoad /
+// brSync protocol on a real BoolReader (suite boolcoder, op fastrun).
+func FastRun(data []byte, ops []int) ([]int, uint64, uint32, int, int, bool) {
+	return lossy.VerifFastRun(data, ops)
+}
